@@ -235,6 +235,30 @@ func (m *Mux) serve(w *ResponseWriter, req *Request) {
 		return
 	}
 	w.logger.Error("no matching handler found for request and returning internal error", "op", op, "connID", w.connID, "requestID", w.requestID, "routeOp", req.routeOp)
-	resp := req.NewResponse(WithResponseCode(ResultUnwillingToPerform), WithDiagnosticMessage("No matching handler found"))
+	resp := req.NewResponse(
+		WithResponseCode(ResultUnwillingToPerform),
+		WithDiagnosticMessage("No matching handler found"),
+		WithApplicationCode(responseApplicationCode(req.routeOp)),
+	)
 	_ = w.Write(resp)
+}
+
+// responseApplicationCode returns the application code of the response that
+// belongs to a request's operation, so a client recognises the response as the
+// final answer to its request.
+func responseApplicationCode(op routeOperation) int {
+	switch op {
+	case bindRouteOperation:
+		return ApplicationBindResponse
+	case searchRouteOperation:
+		return ApplicationSearchResultDone
+	case modifyRouteOperation:
+		return ApplicationModifyResponse
+	case addRouteOperation:
+		return ApplicationAddResponse
+	case deleteRouteOperation:
+		return ApplicationDelResponse
+	default:
+		return ApplicationExtendedResponse
+	}
 }
